@@ -7,12 +7,19 @@ QUICK = dict(KPoss="{1, 2}", ColOps='{"none", "addC1", "addC0", "remB", "remA", 
 THOROUGH = dict(KPoss="{1, 2, 3}", ColOps='{"none", "addC1", "addC2", "addC0", "remB", "remA", "swap", "renB"}',
                 States1='{"same", "removed", "A1", "A2", "B1", "A1B1", "X"}', States2='{"same", "removed", "A1", "B1"}',
                 States3='{"absent", "add1", "add2"}')
+# N = 3: the SMALL universe for the first two branches, row operations only for the third
+TRIPLE = dict(KPoss="{1, 2}", ColOps='{"none", "addC1", "remB"}',
+              States1='{"same", "removed", "A1", "B1"}', States2='{"same", "A1"}', States3='{"absent", "add1"}', ThirdOps='{"none", "addC1"}')
+TRIPLEQ = dict(KPoss="{1, 2}", ColOps='{"none", "addC1"}',
+               States1='{"same", "removed", "A1"}', States2='{"same", "A1"}', States3='{"absent", "add1"}', ThirdOps='{"none"}')
 SMALL = dict(KPoss="{1, 2}", ColOps='{"none", "addC1", "remB"}',
              States1='{"same", "removed", "A1", "B1"}', States2='{"same", "A1"}', States3='{"absent", "add1"}')
 
 
 def cfg(name, consts):
     fn = "MergeGen.%s.cfg" % name
+    consts = dict(consts)
+    consts.setdefault("ThirdOps", "{}")
     with open(os.path.join(vlib.spec_copy(), fn), "w") as f:
         f.write("SPECIFICATION Spec\nCONSTANTS\n" + "\n".join(" %s = %s" % kv for kv in consts.items()) +
                 "\nINVARIANT Laws\nCHECK_DEADLOCK FALSE\n")
